@@ -112,7 +112,7 @@ def near_degenerate(case_text):
             n = int(t[3])
             es += [fl(x) for x in t[4:4 + n]]
     es.sort()
-    return any(1e-12 * (1 + abs(a)) < b - a < 3e-8 for a, b in zip(es, es[1:]))
+    return any(3e-10 < b - a < 3e-8 for a, b in zip(es, es[1:]))
 
 
 def fixed_scripts():
@@ -130,7 +130,10 @@ def fixed_scripts():
          "preset hop4 %s %s %s" % (L("A"), L("b1"), v(3e-5)), "preset level %s %s" % (L("b1"), v(-0.13)),
          "dumplattice", "index 0", "ham", "symm default", "states", "hprepare", "hcompute", "dm %s" % pipeline.hx(10.0), "fops",
          "chi 0 1 1 0 0 3 0 0 0 1 -1 1 2 0 1"]
-    return [s, t]
+    # user-set resonance tolerance (1e-13) on a model whose level splittings (~2e-11) lie between it and the default 1e-8
+    u = [l.replace(v(3e-5), v(3e-6)) for l in t]
+    u.insert(u.index("fops") + 1, "chitol %s" % pipeline.hx(1e-13))
+    return [s, t, u]
 
 
 def correspondence(ctx):
